@@ -1511,3 +1511,28 @@ def m_unsigned_abs(ex, c, a, m):
     if ex.branch(x < 0):
         return z3.simplify(-x)
     return x
+
+
+@model(r'<SystemTime as PartialOrd>::(lt|le|gt|ge|partial_cmp)|<SystemTime as Ord>::(cmp|max|min)')
+def m_time_cmp(ex, c, a, m):
+    x, y = d(a[0]).fields[0], d(a[1]).fields[0]
+    X, Y = bv(x, 64), bv(y, 64)
+    op = m.group(1) or m.group(2)
+    if op == 'lt':
+        return z3.ULT(X, Y) if (is_sym(x) or is_sym(y)) else x < y
+    if op == 'le':
+        return z3.ULE(X, Y) if (is_sym(x) or is_sym(y)) else x <= y
+    if op == 'gt':
+        return z3.UGT(X, Y) if (is_sym(x) or is_sym(y)) else x > y
+    if op == 'ge':
+        return z3.UGE(X, Y) if (is_sym(x) or is_sym(y)) else x >= y
+    lt = ex.branch(z3.ULT(X, Y)) if (is_sym(x) or is_sym(y)) else x < y
+    if op in ('max', 'min'):
+        return (d(a[1]) if lt else d(a[0])) if op == 'max' else (d(a[0]) if lt else d(a[1]))
+    if lt:
+        o = Adt('Ordering', 'Less', [])
+    elif (ex.branch(X == Y) if (is_sym(x) or is_sym(y)) else x == y):
+        o = Adt('Ordering', 'Equal', [])
+    else:
+        o = Adt('Ordering', 'Greater', [])
+    return Some(o) if op == 'partial_cmp' else o
